@@ -97,7 +97,7 @@ def run(fns, schedule_fn):
                 if t.at == 'use':
                     tok = frame.f_locals.get('self')
                     try:
-                        t.use_obs = (len(list(tok.items())), bool(tok._converted))
+                        t.use_obs = (len(list(tok.items())), bool(getattr(tok, '_converted', True)))   # a private flag: read while it exists under that name
                     except Exception as e:  # a half-built object
                         t.use_obs = ('error', type(e).__name__)
                 t.steps += 1
